@@ -572,3 +572,11 @@ pub fn ops_strategy(types: &[TypeDef], n_ctx: usize, max_ops: usize, with_restar
     ];
     prop::collection::vec(op, 4..=max_ops).boxed()
 }
+
+/// `prop::option::weighted` that also accepts probability 0 (always None)
+pub fn opt_w<S: Strategy + 'static>(p: f64, s: S) -> BoxedStrategy<Option<S::Value>>
+where
+    S::Value: Clone + std::fmt::Debug + 'static,
+{
+    if p <= 0.0 { Just(None).boxed() } else { prop::option::weighted(p, s).boxed() }
+}
